@@ -340,3 +340,53 @@ func c18TimeEndingInZero(appHash []byte, who sdk.AccAddress) int64 {
 	verifFail("no block time with a number ending in 0 found")
 	return 0
 }
+
+// C18 "several requests falling due at the same height": SIXTY requests of distinct requesters due at one
+// height (and three due one block later) - a long concrete history: the begin-block of the next block fulfils
+// every one of them, each with the number derived for its own requester, and empties the height's queue;
+// the later ones stay.
+func VerifC18_ManyDue() {
+	verifExpect("fulfilled")
+	const h0, n = int64(40), 60
+	e := newVEnv(types.StoreKey, h0)
+	k := keeper.NewKeeper(e.cdc, e.key, e.bank, &vService{})
+	addr := func(i int) sdk.AccAddress {
+		a := make(sdk.AccAddress, 20)
+		a[0], a[1], a[19] = byte(i), byte(i*7), 0x33
+		return a
+	}
+	var ids [][]byte
+	for i := 0; i < n+3; i++ {
+		ctx := e.ctx.WithTxBytes([]byte{byte(i), 1})
+		interval := uint64(2)
+		if i >= n {
+			interval = 3
+		}
+		req, err := k.RequestRandom(ctx, addr(i), interval, false, nil)
+		verifAssert(err == nil, "plain random requests are accepted")
+		ids = append(ids, types.GenerateRequestID(req))
+	}
+	now := int64(1700000000 + verifChoice("blockTime", 3))
+	hdr := e.ctx.BlockHeader()
+	hdr.Height, hdr.Time, hdr.AppHash = h0+3, time.Unix(now, 0), []byte("app-hash")
+	ctx := e.ctx.WithBlockHeader(hdr)
+	panicked, what := verifCatch(func() { BeginBlocker(ctx, k) })
+	if panicked {
+		verifPrint(what)
+	}
+	verifAssert(!panicked, "begin-block never panics")
+	verifCover("fulfilled")
+	st := e.store()
+	done := 0
+	for i := 0; i < n; i++ {
+		r, err := k.GetRandom(ctx, ids[i])
+		if err == nil && r.Value == types.MakePRNG(hdr.AppHash, now, addr(i), nil, false).GetRand().FloatString(types.RandPrec) && !st.Has(types.KeyRandomRequestQueue(h0+2, ids[i])) {
+			done++
+		}
+	}
+	verifAssert(done == n, "every one of the many requests due at one height is fulfilled in the next block and leaves the queue")
+	for i := n; i < n+3; i++ {
+		_, err := k.GetRandom(ctx, ids[i])
+		verifAssert(err != nil && st.Has(types.KeyRandomRequestQueue(h0+3, ids[i])), "requests due later are untouched")
+	}
+}
